@@ -116,5 +116,15 @@ CHECKS = {
         note="'.name' under a package, namespace-only references and package prefixes bound to values are not determined by the statement and skipped; one recorded finding (name bound as value and namespace).",
         design_ref="DESIGN.md §4 C12",
     ),
+    "C14": dict(
+        technique="exhaustive product of call shape x context template x supplying style x callable kind x behaviour x runner with a recording oracle, + Hypothesis over argument values",
+        category="exploration",
+        text="12 templates x 7 call shapes x 5 callable kinds x 2 supplying styles x 4 behaviours x 2 runners (exhaustive), argument values drawn by Hypothesis: a recording "
+             "wrapper checks the arguments received (type-strict) and the number of calls, a small model gives the outcome incl. absorption by ||, &&, ?:; built-in "
+             "overrides and their scope (same and new environment); unbound names.",
+        note="'reached' = strictly evaluated position (exactly one call) vs skippable operand (at most one); compiled runner judged with the host module made visible as the repository's test does; "
+             "one recorded finding (compiled runner cannot reach other kinds of host callables).",
+        design_ref="DESIGN.md §4 C14",
+    ),
 }
 NOT_APPLICABLE = {}
